@@ -38,6 +38,7 @@ type Coordinator struct {
 	solverS []map[string]map[string]any
 	fatal   []string
 	stop    bool
+	stopped map[int]bool
 }
 
 func NewCoordinator(ld *Loaded, cfg *Config, specs []HarnessSpec, workers int) (*Coordinator, error) {
@@ -97,7 +98,14 @@ func (c *Coordinator) give(h int, rest []workItem, st *HarnessStats) {
 	if c.cfg.Verbose || os.Getenv("VSYM_PROGRESS") != "" {
 		fmt.Fprintf(os.Stderr, "[%s] paths=%d viol=%d queue=%d rest=%d\n", c.specs[h].Name, c.stats[h].Paths, len(c.stats[h].Violations), len(c.queue), len(rest))
 	}
+	if c.stopped == nil {
+		c.stopped = map[int]bool{}
+	}
+	if c.stopped[h] {
+		rest = nil
+	}
 	if c.cfg.StopOnFirst && len(st.Violations) > 0 {
+		c.stopped[h] = true
 		// keep exploring other harnesses but drop this one's remaining work
 		rest = nil
 		nq := c.queue[:0]
